@@ -49,13 +49,13 @@ def run(ctx):
     if ctx.quick():
         plan = {"Python": 2, "C": 2, "JavaScript": 2, "Java": 2, "TypeScript": 2, "Cpp": 2, "CSharp": 2}
     else:
-        plan = {l: 3 for l in ("Python", "C", "JavaScript", "Java", "TypeScript", "Cpp", "CSharp")}     # N=4 did not finish inside any sensible budget (>2 h on 16 cores)
-    jobs = soup_common.soup_jobs(ctx, "total", plan)
-    jobs += soup_common.mutation_jobs(ctx, ["two", "params-multiline", "one-arrow"] if ctx.quick() else None)
+        plan = {"Python": 3, "C": 3, "JavaScript": 3, "Java": 3, "TypeScript": 2, "Cpp": 2, "CSharp": 2}     # N=4 did not finish inside any sensible budget (>2 h on 16 cores); N=3 for one language per family
     T = 150 if ctx.quick() else 600
-    jobs.append(Job("c03.py", "h_decode", {}, T, 30, tag="bytes<=3"))
+    jobs = [Job("c03.py", "h_decode", {}, T, 30, tag="bytes<=3")]
     for ci in range(4):
         jobs.append(Job("c03.py", "h_paths", {"ci": ci}, T, 30, tag=f"cwd#{ci}", meta={"twin": ci == 0}))
+    jobs += soup_common.mutation_jobs(ctx, ["two", "params-multiline", "one-arrow"] if ctx.quick() else None)
+    jobs += soup_common.soup_jobs(ctx, "total", plan)       # the long ones last: under the tier's wall budget the cheap, diverse conditions are decided first
     ctx.bounds["decoding"] = "every byte string of length <= 3"
     ctx.bounds["paths"] = "4 working directories x 20 ways of naming a file or directory x (one | two arguments) x quiet"
     ctx.run_xh(jobs)
